@@ -1,6 +1,19 @@
 """Claimed properties (drives MANIFEST.json through tools/mkmanifest.py)."""
 
-CLAIMED = {}
+NOTE = ('static analysis of the current source; trusted base: clang 14 front end (AST/CFG/constant evaluation), '
+        'the rule implementations in /verif/rules, the frozen idiom tables rules/*.json; decides the structural '
+        'clauses named in the evidence explanation, not the behaviour as a whole')
+
+CLAIMED = {
+    'C01': {'technique': 'table-vs-architecture-manual oracle + symbolic bit-provenance of encoder/decoder (static)',
+            'level': 'exhaustive over the enumerated rule instances (T-ORACLE rows/formats for RV32I and MSP430 core, '
+                     'T-LEN per CPU, T-CPU rows); narrow: encodings of the two oracle ISAs and length agreement only',
+            'note': NOTE},
+    'C12': {'technique': 'CFG path search after every diagnostic, discarded-result dataflow, abstract interpretation of main()',
+            'level': 'exhaustive over every diagnostic call site, every call to an error-returning function and every '
+                     'path of main() reachable from naken_asm; path-insensitive to infeasible branches except the modelled idioms',
+            'note': NOTE},
+}
 
 # properties not (yet) claimed, with the reason
 NOT_APPLICABLE = {
